@@ -134,7 +134,8 @@ REGISTRY = {
     "C08": {"parts": [{"module": "props.tokenizer", "units": ["lemmas", "ctor", "process", "post_process", "iter_tokens", "tokenize"]},
                       {"module": "props.split", "units": ["split"]},
                       {"module": "props.readers", "units": ["fixed", "overlap_iter", "overlap_misc", "limiter"], "include_all": True}],
-            "witness": "tok", "assumptions": TOK_ASSUME + ["split(): the AudioReader / tokenizer constructors are used by contract"]},
+            "witness": "tok", "witness_also": [("api", "C05")],
+            "assumptions": TOK_ASSUME + ["split(): the AudioReader / tokenizer constructors are used by contract"]},
     "C09": {"parts": [{"module": "props.split", "units": ["split", "region_split"]},
                       {"module": "props.iofuncs", "units": ["guess_format", "get_audio_parameters", "get_audio_source", "from_file", "loaders"]},
                       {"module": "props.readers", "units": ["audioreader", "limiter", "fixed", "proxy"], "include_all": True},
@@ -201,7 +202,7 @@ REGISTRY = {
                 "cmdline.main's interrupt handler is covered by C15's path contract (KeyboardInterrupt => stop_all => status 0)"]},
     "C15": {"parts": [{"module": "props.cmdline", "units": ["formatter", "option_table", "make_kwargs", "initialize_workers", "main"]},
                       {"module": "props.workers", "units": ["print_worker", "worker_run", "tokenizer_run", "tokenizer_init_read"]}],
-            "witness": "cli", "assumptions": [
+            "witness": "cli", "witness_also": [("workers", "C12")], "assumptions": [
                 "argparse semantics (add_argument / parse_args), str.format, str.replace/index and print are library models (assumed); "
                 "the option table is read from the literal add_argument calls in main()'s AST",
                 "format strings for the duration formatter are case-split over 16 representatives (bounded on strings, incl. unknown "
@@ -228,7 +229,7 @@ REGISTRY = {
                       {"module": "props.validator", "units": ["is_valid"]},
                       {"module": "props.sources", "units": ["buffer_position", "buffer_init"]},
                       {"module": "props.readers", "units": ["recorder", "replay_lemma", "limiter", "overlap_misc"], "include_all": True}],
-            "witness": "tok", "assumptions": TOK_ASSUME + [
+            "witness": "tok", "witness_also": [("api", "C05")], "assumptions": TOK_ASSUME + [
                 "split(): every call builds a new reader, validator and tokenizer (constructor contracts) and reads a region's "
                 "immutable bytes; is_valid assigns no field (frame obligation), numpy functions are pure (assumed); "
                 "BufferAudioSource.close() returns to position 0; a rewound recorder replays its recording (C19)",
